@@ -65,7 +65,7 @@ def check(names, combo, members, foreign_pos=None):
     src = []
     # definition order does not matter for Griffe (static); write in name order
     for n in names:
-        body = "\n".join(f"    {m} = '{n}.{m}'" for m in members[n]) or "    pass"
+        body = "\n".join((f"    def __init__(self, from_{n}): ..." if m == "__init__" else f"    {m} = '{n}.{m}'") for m in members[n]) or "    pass"
         src.append(f"class {n}({', '.join(bases[n])}):\n{body}\n")
     problems = []
     with tempfile.TemporaryDirectory() as tmp:
@@ -111,6 +111,14 @@ def check(names, combo, members, foreign_pos=None):
             for m in members[n]:
                 if cls.all_members[m].is_alias:
                     problems.append(f"{n}.{m}: own member shadowed by an inherited alias")
+            # the constructor a class presents is the __init__ CPython finds through that order
+            owner = next((b for b in [n, *exp[n]] if "__init__" in members[b]), None)
+            try:
+                got_params = [p.name for p in cls.parameters]
+            except BaseException as e:  # noqa: BLE001
+                got_params = f"raised {type(e).__name__}"
+            if got_params != (["self", f"from_{owner}"] if owner else []):
+                problems.append(f"{n}: CPython calls {owner}.__init__, Class.parameters gives {got_params}")
     return problems, "\n".join(src)
 
 
@@ -221,6 +229,16 @@ def sweep(n, with_members, budget_s=200):
             members = {nm: ("x",) if i != 2 else () for i, nm in enumerate(names3)}
             count += 1
             pr, src = check(names3, combo, members, foreign_pos=pos)
+            if pr:
+                bad.append({"source": src, "problems": pr[:3], "signature": "hierarchy:" + src})
+                break
+    # diamonds of 4 classes with __init__ declared in every subset of them: the constructor presented is the nearest one in the MRO
+    names4 = ["K0", "K1", "K2", "K3"]
+    for combo in ((), ("K0",), ("K0",), ("K1", "K2")), ((), ("K0",), ("K0",), ("K2", "K1")), ((), ("K0",), (), ("K1", "K2")), ((), (), ("K0", "K1"), ("K2", "K1")):
+        for mask in range(16):
+            members = {nm: (("__init__",) if mask >> i & 1 else ()) for i, nm in enumerate(names4)}
+            count += 1
+            pr, src = check(names4, combo, members)
             if pr:
                 bad.append({"source": src, "problems": pr[:3], "signature": "hierarchy:" + src})
                 break
